@@ -66,6 +66,9 @@ def ang(d):
 ROUTE = [0]          # polygons are built through three routes in turn
 
 
+_INC = [0]
+
+
 def build_pix(r):
     import regions as R
     from regions import PixCoord, RegionMeta, RegionVisual
@@ -73,6 +76,10 @@ def build_pix(r):
     meta = RegionMeta({'label': 'L'})
     if r['inc'] != 'absent':
         meta['include'] = {'F': False, 'T': True, '0': 0, '1': 1}[r['inc']]
+        if r['inc'] == 'F':
+            # a false include flag in any of the forms the package itself stores (False; the integer 0 of the DS9 / FITS readers; numpy's False)
+            _INC[0] += 1
+            meta['include'] = [False, 0, np.False_][_INC[0] % 3]
     vis = RegionVisual({'color': 'red', 'linewidth': 2})
     kw = {'meta': meta, 'visual': vis}
     if k == 'compound':
@@ -288,6 +295,20 @@ def check_state(ctx, st, idx, pid='C06'):
                 return True
         except Exception as ex:  # noqa
             ctx.violation(sig + f'frame-attributes-raises|{kindsig(r)}|{type(ex).__name__}', f'{ex!r}', case)
+            return True
+    # a sky line whose end point is given in another celestial frame than its start point is the same line
+    if r['k'] == 'line' and conf[0] != 'fk4':
+        try:
+            with warnings.catch_warnings():
+                warnings.simplefilter('ignore')
+                other_frame = 'galactic' if sky.start.frame.name != 'galactic' else 'icrs'
+                other = type(sky)(sky.start, sky.end.transform_to(other_frame), meta=sky.meta.copy(), visual=sky.visual.copy()).to_pixel(wcs)
+            why = close_pix(other, back, 1e-6, 30.0)
+            if why:
+                ctx.violation(sig + 'mixed-frames|line', f'the same sky line with its end point given in {other_frame} has another pixel image: {why}', case)
+                return True
+        except Exception as ex:  # noqa
+            ctx.violation(sig + f'mixed-frames-raises|line|{type(ex).__name__}', f'{ex!r}', case)
             return True
     # an ellipse / rectangle (annulus) given in another celestial frame than the image's - same centre on the sky, same sizes, the angle
     # reduced by the position angle its frame's north makes with the image frame's north there (measured with astropy alone) - is the same
